@@ -5,7 +5,7 @@ from concurrent.futures import ThreadPoolExecutor
 props = sys.argv[1:]
 jobs = []
 for p in props:
-    for ab in "AB":
+    for ab in os.environ.get("LETTERS", "AB"):
         d = "/tmp/seed_%s/%s" % (p, ab)
         if os.path.exists(os.path.join(d, "patch.diff")):
             jobs.append((p, ab, d))
